@@ -57,8 +57,17 @@ DotOK ==
 \* ---- the vectors ---------------------------------------------------------------
 DotsU == {<<a, n>> : a \in Actors, n \in 0..(MaxCounter + 2)}
 DSeq == [a \in Actors |-> [n \in 1..(MaxCounter + 3) |-> n - 1]]
+\* the lattices of the simple types live on the same universe: a GCounter is a clock read as a sum, a PNCounter a pair
+\* of them, a GSet the support of a clock, Max/MinReg one coordinate
+RECURSIVE SumTo(_, _)
+SumTo(f, n) == IF n = 0 THEN 0 ELSE f[n] + SumTo(f, n - 1)
+Total(f) == SumTo(f, NActors)
 Vector ==
   [c |-> c, d |-> d,
+   gread |-> Total([a \in Actors |-> Max2(c[a], d[a])]),                     \* GCounter(c) merged with GCounter(d)
+   pnread |-> Total([a \in Actors |-> Max2(c[a], d[a])]) - Total(c),          \* PNCounter(p = c, n = 0) merged with PNCounter(p = d, n = c)
+   gset |-> [a \in Actors |-> IF Max2(c[a], d[a]) > 0 THEN 1 ELSE 0],         \* GSet(support c) merged with GSet(support d)
+   maxv |-> Max2(c[1], d[1]), minv |-> Min2(c[1], d[1]),                      \* MaxReg / MinReg holding c[1], d[1]
    cmp |-> CmpD(c, d), conc |-> (~LeqD(c, d) /\ ~LeqD(d, c)),
    join |-> [a \in Actors |-> Max2(c[a], d[a])],
    glb |-> [a \in Actors |-> Min2(c[a], d[a])],
